@@ -32,6 +32,27 @@ fn run(c: &CaseD) -> String {
     }
 }
 
+/// the same call with ONE object passed on both sides (only when the two operands are equal values of the same kind)
+fn run_aliased(c: &CaseD) -> Option<String> {
+    if c.lhs != c.rhs || c.lhs_is_p != c.rhs_is_p || c.lhs.is_empty() {
+        return None;
+    }
+    verif_hooks::reset_event_budget(c.budget);
+    let r = guarded(|| {
+        if c.lhs_is_p {
+            let p = c.lhs[0].clone();
+            p.boolean(&p, c.op)
+        } else {
+            let m = MultiPolygon(c.lhs.clone());
+            m.boolean(&m, c.op)
+        }
+    });
+    Some(match r {
+        Ok(m) => format!("ok {}", multipolygon_str(&m)),
+        Err(e) => e,
+    })
+}
+
 fn enc(c: &CaseD) -> String {
     format!(
         "{} | {}",
@@ -114,6 +135,17 @@ fn main() {
     for h in handles {
         bad.extend(h.join().unwrap());
     }
+    // equal operands must give equal results whether or not they are one and the same object
+    let mut aliased = 0;
+    for (c, r) in cases.iter().zip(reference.iter()) {
+        if let Some(a) = run_aliased(c) {
+            aliased += 1;
+            if &a != r {
+                bad.push(format!("{} result differs when one object is passed as both operands (instead of two equal values)", c.id));
+            }
+        }
+    }
+    println!("mtalias calls={}", aliased);
     for (c, r) in cases.iter().zip(reference.iter()) {
         println!("bool {} {}", c.id, r);
     }
